@@ -75,7 +75,7 @@ def fixed_trees():
 
 def option_cases(thorough):
     trees = fixed_trees()
-    letters = ["f", "q0", "q1", "q2", "i", "w=OUT", "v"]
+    letters = ["f", "q", "q0", "q1", "q2", "i", "w=OUT", "v"]
     for tname, ents in trees.items():
         for r in range(0, 4 if thorough else 3):
             for combo in itertools.permutations(letters, r):
@@ -173,6 +173,32 @@ def print_cases(thorough):
             yield {"entries": ents, "cmd": cmd}
 
 
+def many_cases(thorough):
+    """archives with hundreds of entries of one kind: counters, stacks and lists inside the tool and the library pass 255/256"""
+    f = lambda p, n, perms=0o100644, t=T1, **kw: dict({"k": "f", "path": p, "name": n, "perms": perms, "mtime": t, "data": hx(("d %s%s" % (p, n)).encode())}, **kw)
+    d = lambda p, perms=0o040755, t=T2: {"k": "d", "path": p, "name": "", "perms": perms, "mtime": t}
+    for n in (255, 256, 257, 300) + ((600,) if thorough else ()):
+        perms = (0o040755, 0o040700, 0o040555, 0o040750)
+        sib = []
+        for i in range(n):
+            sib += [d("d%03d/" % i, perms[i % 4], T1 + i * 2), f("d%03d/" % i, "f", 0o100644 if i % 3 else 0o100400, T2 + i * 2)]
+        yield {"entries": sib, "cmd": "xf", "uid": cli.NOBODY}
+        yield {"entries": sib, "cmd": "xq", "uid": cli.NOBODY}
+        yield {"entries": [f("", "file%03d" % i, 0o100600 + (i % 8) * 8, T1 + i * 2) for i in range(n)], "cmd": "x", "uid": cli.NOBODY}
+        links = [f("", "real")] + [{"k": "l", "path": "", "name": "s%03d" % i, "target": "real", "mtime": T1} for i in range(n)]
+        yield {"entries": links, "cmd": "xf", "uid": cli.NOBODY}
+        dang = [{"k": "l", "path": "", "name": "g%03d" % i, "target": "../o%d" % i, "mtime": T1} for i in range(n)] + [f("", "after")]
+        yield {"entries": dang, "cmd": "xf", "uid": cli.NOBODY}
+    for depth in (20, 60):
+        nest = []
+        p = ""
+        for i in range(depth):
+            p += "n%d/" % (i % 10)
+            nest.append(d(p, 0o040755 if i % 2 else 0o040555, T1 + i * 2))
+        nest.append(f(p, "leaf"))
+        yield {"entries": nest, "cmd": "xf", "uid": cli.NOBODY}
+
+
 def run(ctx):
     T = ctx.thorough
     cliprop.run_space(ctx, "props.cli_c06", "tree-shapes", tree_cases(5 if T else 4), chunk=128)
@@ -182,6 +208,7 @@ def run(ctx):
     cliprop.run_space(ctx, "props.cli_c06", "relocation", relocation_cases(T), chunk=4)
     cliprop.run_space(ctx, "props.cli_c06", "wildcards", glob_cases(T), chunk=8)
     cliprop.run_space(ctx, "props.cli_c06", "print", print_cases(T), chunk=64)
+    cliprop.run_space(ctx, "props.cli_c06", "many", many_cases(T), chunk=1)
     # the three library directory policies: every entry of 8 generated archives extracted through lha_reader_extract with the
     # header's own names; resulting tree compared with the member table (modes and mtimes of directories for the deferring policies)
     import build
@@ -193,7 +220,7 @@ def run(ctx):
     return ctx.finish(
         rule="'tree-shapes': ALL trees with up to 4 (thorough 5) archive entries, up to 3 children per directory, depth <= 3, node kinds {dir 0755/0555/0700, implicit dir, file 0644/0400, safe link, dangerous link}, sibling names a/ab/b, two timestamps, extracted with 'x' unprivileged; "
              "'options': 4 fixed trees (flat with lh5/lzs members, nested read-only, links, MacBinary/level-0/1 members) x every ordered option word of up to 2 (3) letters from {f,q0,q1,q2,i,w=OUT,v} x {x,e}; "
-             "'overwrite': every subset of pre-existing members x every answer string up to the number of prompts over {y,n,a,s,empty,junk,Yes,N}, plus f/q; 'wildcards': every pattern up to length 3 (4) over {a,b,*,?,/} against 100+ stored paths; 'macbinary': MacLHA members with data/resource fork lengths around multiples of 128 (envelope recognised <=> declared length is the 128-rounded sum) under xf and pq2; 'print': p/pq/pq1 over all trees of up to 3 entries. "
+             "'overwrite': every subset of pre-existing members x every answer string up to the number of prompts over {y,n,a,s,empty,junk,Yes,N}, plus f/q; 'wildcards': every pattern up to length 3 (4) over {a,b,*,?,/} against 100+ stored paths; 'macbinary': MacLHA members with data/resource fork lengths around multiples of 128 (envelope recognised <=> declared length is the 128-rounded sum) under xf and pq2; 'print': p/pq/pq1 over all trees of up to 3 entries; 'many': 255/256/257/300 (600) sibling directories with files, plain files, safe links and dangerous links in one archive, directory chains 20 and 60 deep. "
              "Oracle: final tree == model tree on content, mtime, mode & 0777, link target, directory mode and mtime; stdout == banner + bytes for p. non-trivial = runs that created at least one object / printed",
         replay_fn=lambda rep: (cliprop.replay_case(rep) if rep.get('kind') == 'cli' else runner.replay_explorer(rep, quiet=True)))
 
